@@ -12,6 +12,9 @@ every call, successful or raising.  Whenever a datetime is stored (and for a sam
 cases) the same entry points are also asked through a `tz_aware=True` client (python only): each
 must give the naive client's answer with UTC attached - the projection is computed on the stored
 document, whichever client reads - and `find_one_and_*` must agree with `find` on that client.
+The dated cases also carry their projection a second time, every datetime of its conditions written
+another way (tz-aware under some offset, with a sub-millisecond part, or both): python only, it
+must project like the stored form through find, find_one and find_one_and_* on both clients.
 """
 import collections
 import copy
@@ -37,7 +40,9 @@ RULE = ('case = 1-3 stored documents (variants of one another: nested sub-docume
         'sub-documents, mixed arrays, missing paths), one filter, one projection (dict / list '
         'form, _id toggling, dotted paths, $slice, $elemMatch, malformed stream; one case in eight '
         'is "dated": arrays of sub-documents / scalars carrying datetimes, $elemMatch conditions '
-        'on those dates by equality, range, $in/$nin/$ne, $slice next to date fields) and one '
+        'on those dates by equality, range, $in/$nin/$ne, $slice next to date fields, and the same '
+        'projection once more with these datetimes written tz-aware / with sub-millisecond parts) '
+        'and one '
         'plain $project specification; evaluated through find per document, find over the filter, '
         'find_one, one of find_one_and_update/replace/delete (BEFORE or AFTER), and aggregate on '
         '/repo and through the Lean model, and - when a datetime is stored, plus a 15 % sample - '
@@ -59,8 +64,13 @@ ASSUMPTIONS = [
     'sort / skip / limit are not combined with projection here (C11)',
     'tz_aware=True clients are outside the model (the driver is not consulted): their answers are '
     'judged against the naive client\'s answer with UTC attached to every datetime and against '
-    'find on the same client; the datetimes inside projection conditions are naive (an aware '
-    'datetime inside a projection is not normalised by the library: not generated)',
+    'find on the same client',
+    'a datetime inside a projection condition is read like one in the filter (fix: commit in '
+    '/repo, finding projection-condition-date-raw): the model and the oracle get the stored form '
+    '(naive UTC, milliseconds) of the projection; the same projection with its datetimes written '
+    'tz-aware (any offset) and / or with a sub-millisecond part is judged python-only: through '
+    'find, find_one and find_one_and_*, on the naive and the tz_aware client, it must project '
+    'like the stored form',
 ]
 
 # classes of deviation still excused (listed in known_findings.json with status "known"): none.
@@ -182,9 +192,11 @@ def gen_case(rng):
     else:
         pa = pg.agg_projection(some)
     fam = rng.choice(['update', 'update_after', 'replace', 'replace_after', 'delete'])
+    # dated cases: the datetimes of the projection conditions written another way
+    palt = pg.respell(p) if dated else None
     # the tz_aware client is asked whenever a datetime is stored, and for a sample of the rest
     return {'docs': docs, 'filter': f, 'proj': p, 'aggproj': pa, 'fam': fam, 'oids': oids,
-            'kinds': pg.kinds, 'tzprobe': rng.random() < 0.15}
+            'kinds': pg.kinds, 'tzprobe': rng.random() < 0.15, 'proj_alt': palt}
 
 
 def render(c, **kw):
@@ -195,6 +207,9 @@ def render(c, **kw):
          'wire_docs': [wire.encs(d, o) for d in c['docs']],
          'wire_filter': wire.encs(c['filter'], o), 'wire_proj': wire.encs(c['proj'], o),
          'wire_aggproj': wire.encs(c['aggproj'], o)}
+    if c.get('proj_alt') is not None:
+        r['projection_respelled'] = wire.pretty(c['proj_alt'])
+        r['wire_proj_alt'] = wire.encs(c['proj_alt'], o)
     r.update(kw)
     return r
 
@@ -204,7 +219,8 @@ def case_from(e):
     return {'docs': [wire.dec(w, oids) for w in e['wire_docs']],
             'filter': wire.dec(e['wire_filter'], oids), 'proj': wire.dec(e['wire_proj'], oids),
             'aggproj': wire.dec(e['wire_aggproj'], oids), 'fam': e.get('fam', 'update'),
-            'oids': oids, 'kinds': {}}
+            'oids': oids, 'kinds': {},
+            'proj_alt': wire.dec(e['wire_proj_alt'], oids) if e.get('wire_proj_alt') else None}
 
 
 def fresh(docs, tz_aware=False):
@@ -315,6 +331,39 @@ def py_eval_tz(c):
     c['tz'] = t
 
 
+def py_eval_alt(c):
+    """the projection with its datetimes written another way (tz-aware, sub-millisecond parts),
+    through find per document, find_one and find_one_and_* on the naive client and, when it is
+    asked, the tz_aware one (python only: the model gets the stored form)"""
+    c['alt'] = None
+    pa = c.get('proj_alt')
+    if pa is None:
+        return
+    f, fam = c['filter'], c['fam']
+    c['alt'] = {}
+    for tz in ([False, True] if c['tz'] else [False]):
+        coll = fresh(c['docs'], tz_aware=tz)
+        tag = ' (respelled%s)' % (', tz_aware' if tz else '')
+
+        def arg_of(entry, tag=tag):
+            a = copy.deepcopy(pa)
+            c['args'].append((entry + tag, a, copy.deepcopy(pa)))
+            return a
+        per = []
+        for d in c['stored']:
+            arg = arg_of('find')
+            r = attempt(lambda: list(coll.find({'_id': d['_id']}, arg)))
+            if not is_err(r):
+                r = r[0] if len(r) == 1 else '!wrongcount%d' % len(r)
+            per.append(r)
+        arg1 = arg_of('find_one')
+        one = attempt(lambda: coll.find_one(copy.deepcopy(f), arg1))
+        coll2 = fresh(c['docs'], tz_aware=tz)
+        arg3 = arg_of('find_one_and_' + fam)
+        famres = find_and_modify(coll2, fam, {'_id': c['stored'][0]['_id']}, arg3)
+        c['alt'][tz] = {'per': per, 'one': one, 'famres': famres}
+
+
 def py_eval(c):
     """run the real code on every entry point; every projection object handed to the code is
     kept in c['args'] as (entry, object after the call, pristine copy)"""
@@ -359,6 +408,7 @@ def py_eval(c):
     c['tz'] = None
     if c.get('tzprobe', True) or has_date(stored):
         py_eval_tz(c)
+    py_eval_alt(c)
 
 
 def case_lines(c):
@@ -479,6 +529,7 @@ class Judge(object):
         self.direct_query(c)
         self.direct_args(c)
         self.direct_tz(c)
+        self.direct_alt(c)
         # list(find(filter, projection)) and find_one
         impl = parts(out['found'])[0]
         self.judge(c, 'find-list', w(c['found'], o), impl, False, True, [],
@@ -631,6 +682,31 @@ class Judge(object):
                 python=got if is_err(got) else wire.pretty(got), find=wire.pretty(ref)),
                 rank=12 + len(repr(c['proj'])) + len(repr(c['docs'])))
 
+    def direct_alt(self, c):
+        """every way of writing one instant inside a projection condition projects like the
+        stored form (naive UTC, milliseconds) of that instant"""
+        alt = c.get('alt')
+        if not alt:
+            return
+        o = c['oids']
+        fam = 'find_one_and_' + c['fam']
+        for tz, a in sorted(alt.items()):
+            ref = c['tz'] if tz else c
+            pairs = [('find', ref['per'][i], a['per'][i], {'doc_index': i})
+                     for i in range(len(c['stored']))]
+            pairs += [('find_one', ref['one'], a['one'], {}), (fam, ref['famres'], a['famres'], {})]
+            for entry, want, got, kw in pairs:
+                self.direct['respelled:' + ('find_one_and_*' if '_and_' in entry else entry)] += 1
+                if w(got, o) != w(want, o):
+                    self.ctx.violation(render(
+                        c, kind='a datetime inside a projection condition written another way '
+                        '(tz-aware / sub-millisecond part) does not project like its stored form '
+                        'through %s' % entry, entry=entry, tz_aware=tz,
+                        python=got if is_err(got) else wire.pretty(got),
+                        expected=want if is_err(want) else wire.pretty(want), **kw),
+                        rank=14 + len(repr(c['proj'])) + len(repr(c['docs'])))
+                    return
+
     def direct_args(self, c):
         """the projection object the caller passed is left exactly as it was, whether the call
         succeeded or raised"""
@@ -722,9 +798,11 @@ def fixed_cases():
             continue
         wt = e['witness']
         agg = wt['entry'] == 'aggregate'
-        out.append(case_from({'wire_docs': [wt['wire_doc']], 'wire_filter': '{ }',
-                              'wire_proj': '{ S61 I1 }' if agg else wt['wire_proj'],
-                              'wire_aggproj': wt['wire_proj'] if agg else '{ S61 I1 }'}))
+        for fam in wt.get('fams', ['update']):
+            out.append(case_from({'wire_docs': [wt['wire_doc']], 'wire_filter': '{ }',
+                                  'wire_proj': '{ S61 I1 }' if agg else wt['wire_proj'],
+                                  'wire_aggproj': wt['wire_proj'] if agg else '{ S61 I1 }',
+                                  'wire_proj_alt': wt.get('wire_proj_alt'), 'fam': fam}))
     return out
 
 
